@@ -294,3 +294,15 @@ Proof.
   intros a b H c d H1.
   destruct (qmax_case a c) as [[? ->]|[? ->]], (qmax_case b d) as [[? ->]|[? ->]]; lra.
 Qed.
+
+(* ---------------------------------------------------------------- multi-dimensional arguments
+   A test flattens its arrays (C order) after checking that their SHAPES agree; arrays of equal size
+   but different shapes are rejected.  The one-dimensional models take the flattened series. *)
+Definition shape_guard (s1 s2 : list nat) (o : outcome) : outcome :=
+  if list_eq_dec Nat.eq_dec s1 s2 then o else Raises ValueError.
+
+Lemma shape_guard_same s o : shape_guard s s o = o.
+Proof. unfold shape_guard. destruct (list_eq_dec Nat.eq_dec s s); [reflexivity|congruence]. Qed.
+
+Lemma shape_guard_differ s1 s2 o : s1 <> s2 -> shape_guard s1 s2 o = Raises ValueError.
+Proof. intros H. unfold shape_guard. destruct (list_eq_dec Nat.eq_dec s1 s2); [congruence|reflexivity]. Qed.
